@@ -435,6 +435,10 @@ fn abort_violation(claim: Prop, p: &Value) -> Violation {
             "book" => "book",
             "plugin" => "plugin",
             "status" => "status",
+            "perft" => "perft",
+            "history" => "history",
+            "parse-damaged" => "parse-damaged",
+            "build-damaged" => "build-damaged",
             _ => "harness",
         },
         kind,
